@@ -38,6 +38,13 @@ Theorem C07_ks_rows : forall out_key cells noises ds rows r, ks_rows out_key cel
 Proof. exact ks_rows_phases. Qed.
 Print Assumptions C07_ks_rows.
 
+(* the older constructor lweCreateKeySwitchKey_old: every cell, h = 0 included, is a fresh encryption of its message *)
+Theorem C07_ks_rows_old : forall out_key cells ds rows r, ks_rows_fresh out_key cells ds = Some (rows, r) ->
+  length rows = length cells /\ exists gs, length gs = length cells /\
+    map (lwe_phase out_key) rows = map (fun cg => w32 (fst (fst cg) + dtot32 (fst (snd cg)) (snd (snd cg)))) (combine cells gs).
+Proof. exact ks_rows_fresh_spec. Qed.
+Print Assumptions C07_ks_rows_old.
+
 (* TLWE rows (hence every TGSW / bootstrapping-key row before the gadget is added): masks are the drawn words, one
    independent draw per coefficient is the error *)
 Theorem C07_tlwe_row : forall N, (0 < N)%nat -> forall key ds c r, Forall (lenN N) key ->
